@@ -458,23 +458,8 @@ def oracle_efc(D):
         row = D["efc_J"][i * nv:(i + 1) * nv]
         sc = 1 + max(abs(x) for x in row + fd)
         if maxdiff(row, fd) > 1e-5 * sc:
-            # input class of the recorded finding C07-F1: a row built from the Jacobian of a fixed tendon that lists the same
-            # joint more than once, wrong ONLY at the dofs of the repeated joints (the densified duplicate slot), and for
-            # limit rows with the value 0 there; anything else about such tendons stays "generic" and alarms
-            tendons = []
-            if ty[i] == 4:
-                tendons = [idd[i]]
-            elif ty[i] == 0 and D["eq_type"][idd[i]] == 3:
-                tendons = [t for t in (D["eq_obj1id"][idd[i]], D["eq_obj2id"][idd[i]]) if t >= 0]
-            repdofs = set()
-            for t in tendons:
-                a, n = D["tendon_adr"][t], D["tendon_num"][t]
-                ids = [D["wrap_objid"][a + k] for k in range(n) if D["wrap_type"][a + k] == 1]
-                repdofs |= set(D["jnt_dofadr"][j] for j in ids if ids.count(j) > 1)
-            bad = [k for k in range(nv) if abs(row[k] - fd[k]) > 1e-5 * sc]
-            rep = bool(repdofs) and all(k in repdofs for k in bad) and (ty[i] != 4 or all(row[k] == 0 for k in bad))
             f.append(("efc_J row = d efc_pos / d q (central difference over mj_integratePos)",
-                      {"row": i, "efc_type": ty[i], "efc_id": idd[i], "within": within[i], "class": "fixed-tendon-repeated-joint-dense" if rep else "generic"}, fd, row))
+                      {"row": i, "efc_type": ty[i], "efc_id": idd[i], "within": within[i]}, fd, row))
     return f, nrows
 
 
@@ -508,16 +493,16 @@ def run(ctx):
     ereq = []
     ne = 6 if not big else 40
     efeat = base | FEAT["FREE"] | FEAT["BALL"] | FEAT["SLIDE"] | FEAT["EQUALITY"] | FEAT["LIMIT"] | FEAT["TENDON"]
-    ereq.append((197051, 66615, 3, 13))      # fixed corpus (both tiers): the replay of the recorded finding C07-F1
     for i in range(ne):
         ereq.append((rng.randrange(1, 10 ** 6), efeat | (FEAT["MULTITREE"] if i % 2 else 0), rng.choice([2, 3, 4, 5]), 1 + i))
-    inp = "".join("K %d %d %d %d\n" % r for r in kreq) + "".join("J %d %d %d %d\n" % r for r in jreq) + "".join("E %d %d %d %d\n" % r for r in ereq)
+    inp = "".join("K %d %d %d %d\n" % r for r in kreq) + "".join("J %d %d %d %d\n" % r for r in jreq) + "".join("E %d %d %d %d\n" % r for r in ereq) + "R\n"
     rc, out, err = ctx.run(exe, inp)
     blocks = parse_blocks(out)
-    if rc != 0 or len(blocks) != len(kreq) + len(jreq) + len(ereq):
-        ctx.broken.append(("correspondence", "driver c07_kin failed", "rc=%s blocks=%d/%d %s" % (rc, len(blocks), len(kreq) + len(jreq) + len(ereq), err[-800:])))
+    if rc != 0 or len(blocks) != len(kreq) + len(jreq) + len(ereq) + 1:
+        ctx.broken.append(("correspondence", "driver c07_kin failed", "rc=%s blocks=%d/%d %s" % (rc, len(blocks), len(kreq) + len(jreq) + len(ereq) + 1, err[-800:])))
         return
-    kb, jb, eb = blocks[:len(kreq)], blocks[len(kreq):len(kreq) + len(jreq)], blocks[len(kreq) + len(jreq):]
+    kb, jb, eb = blocks[:len(kreq)], blocks[len(kreq):len(kreq) + len(jreq)], blocks[len(kreq) + len(jreq):-1]
+    rb = blocks[-1]
     seen = set()
 
     def report(law, req, op, detail, exp, obs, theorem):
@@ -562,6 +547,15 @@ def run(ctx):
         counts["efc_rows"] += nrows
         for (law, detail, exp, obs) in fl:
             report(law, req, "E", detail, exp, obs, "C07 (oracle only)")
+    # support (repaired defect): a fixed tendon listing a joint twice used to get duplicate columns in ten_J, which mju_sparse2dense
+    # overwrote, so the dense efc_J tendon rows lost the coefficient; mj_compile now rejects such tendons.  If one is accepted again,
+    # its constraint rows are judged by the same finite-difference oracle.
+    ctx.cov["support"]["repeated_joint_fixed_tendon_rejected_by_compiler"] = bool(rb.get("rejected", [0])[0])
+    if not rb.get("rejected", [0])[0] and "efc_J" in rb:
+        fl, nrows = oracle_efc(rb)
+        counts["efc_rows"] += nrows
+        for (law, detail, exp, obs) in fl:
+            report(law, (0, 0, 0, 0), "R", dict(detail, model="one hinge, fixed tendon j0*1 + j0*2, limited"), exp, obs, "C07 (oracle only)")
     # ---------------- model evaluation inside Coq
     cases, descr = [], []
     for req, D in zip(kreq, kb):
